@@ -93,6 +93,34 @@ func DecodeMessage(data []byte) (msgType uint8, payload []byte, err error) {
 	return data[0], data[1:], nil
 }
 
+// SplitMessage splits an encoded byte-stream message (STDIN, STDOUT or STDERR)
+// into messages of the same type whose encoded size does not exceed max bytes,
+// preserving the order of the payload bytes. Messages that already fit, and
+// messages of any other type (they are not byte streams and cannot be cut),
+// are returned unchanged as the only element.
+func SplitMessage(msg []byte, max int) [][]byte {
+	if len(msg) <= max || max < 2 {
+		return [][]byte{msg}
+	}
+	switch msg[0] {
+	case MsgStdin, MsgStdout, MsgStderr:
+	default:
+		return [][]byte{msg}
+	}
+	payload := msg[1:]
+	step := max - 1
+	parts := make([][]byte, 0, (len(payload)+step-1)/step)
+	for len(payload) > 0 {
+		n := step
+		if n > len(payload) {
+			n = len(payload)
+		}
+		parts = append(parts, EncodeMessage(msg[0], payload[:n]))
+		payload = payload[n:]
+	}
+	return parts
+}
+
 // EncodeMeta encodes a ShellMeta message.
 func EncodeMeta(meta *ShellMeta) ([]byte, error) {
 	payload, err := json.Marshal(meta)
